@@ -774,6 +774,16 @@ def Statement_gen_quiescent : Prop :=
           n.runAll pat req work = t :: n.runAll pat req (n.runGen pat req work).1) ∧
       ((n.runGen pat req work).2 = none → n.runAll pat req work = [])
 
+/-- `for t in g` on the concrete machine: if the generator begins (first `next()`) on the state `n`, then whatever
+    mutations are interleaved afterwards, the k-th `next()` yields the k-th element of `list(g)` as it was at that
+    moment — the concrete counterpart of `iter_all_is_snapshot` -/
+def Statement_gen_snapshot : Prop :=
+  ∀ (n : NMem) (g : Nat) (evs : List GEv) (hist : List NMem),
+    (gyields hist n (NGen.new allPat (some g)) (.next :: evs)).map (fun y => y.1)
+      = (n.graph g).take (gcountNext evs + 1)
+
+theorem gen_snapshot : Statement_gen_snapshot := fun n g evs hist => gyields_fast n g evs hist
+
 theorem gen_sound : Statement_gen_sound := by
   intro pre pat g evs
   have hg := ngood_stRun pre _ ngood_init
